@@ -12,12 +12,16 @@ META = dict(
          'forward model with 4 parameters and 2 derived parameters and an observation with 2 parameters and 1 '
          'derived parameter, including unknown names and wrong vector lengths; compared operation by operation '
          '(error kind, every parameter value; after each compile also names, values, boundaries, priors, derived '
-         'names); pairs of histories reaching the same settings; write-back of the reported values; '
+         'names); pairs of histories reaching the same settings; write-back of the reported values; the same '
+         'histories on a real transmission model (its ~10 parameters collected from planet, star, pressure, '
+         'temperature, chemistry and contributions; alias names of one quantity excluded) with an observation that '
+         'has a parameter of its own; '
          'non-trivial = history with >= 2 compiles and >= 1 update; distinct by op sequence',
     trusted=['10**x and log10 x are symbolic in the discrete model and evaluated by the harness when comparing'],
     modelled=['Optimizer.enable_fit, disable_fit, set_mode, set_boundary, set_factor_boundary, set_prior, '
               'enable_derived, disable_derived, compile_params, update_model, fit_names, fit_values, '
-              'fit_boundaries, fitting_priors, derived_names'],
+              'fit_boundaries, fitting_priors, derived_names; SimpleForwardModel.collect_fitting_parameters / '
+              'Fittable (through the initial state read from the live model)'],
     assumptions=['views are observed after compile_params() (between set_prior and the next compile the optimizer '
                  'is in a transient state the property does not speak about)',
                  'parameter names are pairwise distinct across model and observation'],
@@ -27,12 +31,24 @@ META = dict(
 HEADER = ('From Coq Require Import ZArith QArith List.\nFrom TV Require Import Model_C07 Exec_C07.\n'
           'Import ListNotations.\nOpen Scope Z_scope.\n')
 
-MODEL_P = ['m0', 'm1', 'm2', 'm3']
-OBS_P = ['o0', 'o1']
-MODEL_D = ['md0', 'md1']
-OBS_D = ['od0']
-IDS = {n: i for i, n in enumerate(MODEL_P + OBS_P + MODEL_D + OBS_D)}
-IDS['zz'] = 99
+class Names:
+    """the parameters of one world: model / observation fitting parameters and derived parameters, in collection order"""
+    def __init__(self, model_p, obs_p, model_d, obs_d):
+        self.model_p, self.obs_p, self.model_d, self.obs_d = list(model_p), list(obs_p), list(model_d), list(obs_d)
+        self.ids = {n: i for i, n in enumerate(self.model_p + self.obs_p + self.model_d + self.obs_d)}
+        self.ids['zz'] = 9999
+
+    @property
+    def params(self):
+        return self.model_p + self.obs_p
+
+    @property
+    def derived(self):
+        return self.model_d + self.obs_d
+
+
+STUB = Names(['m0', 'm1', 'm2', 'm3'], ['o0', 'o1'], ['md0', 'md1'], ['od0'])
+MODEL_P, OBS_P, MODEL_D, OBS_D, IDS = STUB.model_p, STUB.obs_p, STUB.model_d, STUB.obs_d, STUB.ids
 
 
 def make_world(vals, modes, fits, bounds, dcomp):
@@ -78,6 +94,57 @@ def make_world(vals, modes, fits, bounds, dcomp):
     return m, o, Optimizer('verif', observed=o, model=m)
 
 
+def current(world, N):
+    """every fitting parameter's current value, read through its own getter"""
+    m, o, _ = world
+    return [m.fittingParameters[n][2]() for n in N.model_p] + [o.fittingParameters[n][2]() for n in N.obs_p]
+
+
+def make_real_world(rng, spec=None):
+    """a real forward model (parameters collected from planet, star, pressure, temperature, chemistry and
+    contributions by collect_fitting_parameters) and an observation with a parameter of its own"""
+    import tmodel
+    import c06
+    from taurex.optimizer import Optimizer
+    if spec is None:
+        spec = tmodel.gen_spec(rng, ngas=2, contribs=['Absorption'] + (['SimpleClouds'] if rng.random() < 0.5 else []),
+                               nlayers=3, nwn=3)
+        spec['T'] = [rng.uniform(500, 2000)]
+        for g in spec['gases']:
+            if spec['mix'][g] <= 0:                 # a log-mode parameter needs a positive value to have a log-space view
+                spec['mix'][g] = 10 ** rng.uniform(-8, -2)
+    model = tmodel.build(spec)
+    wl = np.array([2.0, 3.0, 4.0])
+    obs = c06.scaled_spectrum_class()(np.vstack([wl, np.full(3, 1e-2), np.full(3, 1e-4)]).T)
+    # two names for one quantity (planet_distance / planet_sma): writing one necessarily changes the other, so only the
+    # first name of such a group takes part in the histories (the others stay in the model, never enabled)
+    mp = list(model.fittingParameters)
+    alias = set()
+    for a in mp:
+        if a in alias:
+            continue
+        fa = model.fittingParameters[a]
+        v0 = fa[2]()
+        others = {b: model.fittingParameters[b][2]() for b in mp if b != a}
+        fa[3](v0 * 1.25 if v0 else 0.5)
+        for b, vb in others.items():
+            if model.fittingParameters[b][2]() != vb:
+                alias.add(b)
+        fa[3](v0)
+    N = Names([n for n in mp if n not in alias], list(obs.fittingParameters), list(model.derivedParameters),
+              list(obs.derivedParameters))
+    fp = dict(model.fittingParameters)
+    fp.update(obs.fittingParameters)
+    dp = dict(model.derivedParameters)
+    dp.update(obs.derivedParameters)
+    vals = {n: Fr(float(fp[n][2]())) for n in N.params}
+    modes = {n: fp[n][4] for n in N.params}
+    fits = {n: bool(fp[n][5]) for n in N.params}
+    bounds = {n: (Fr(float(fp[n][6][0])), Fr(float(fp[n][6][1]))) for n in N.params}
+    dcomp = {n: bool(dp[n][3]) for n in N.derived}
+    return (model, obs, Optimizer('verif', observed=obs, model=model)), N, (vals, modes, fits, bounds, dcomp), spec
+
+
 def fr(x):
     return Fr(x).limit_denominator(10 ** 6)
 
@@ -86,19 +153,25 @@ def qlit(f):
     return '(Qmake %s %d)' % (C.zlit(f.numerator), f.denominator)
 
 
-def gen_history(rng):
-    names = MODEL_P + OBS_P
-    vals = {n: fr(rng.choice([0.5, 2, 10, 150, 1500]) * rng.choice([1, 1, 3])) for n in names}
-    modes = {n: rng.choice(['linear', 'log']) for n in names}
-    fits = {n: rng.random() < 0.3 for n in names}
-    bounds = {n: (fr(10 ** rng.randint(-3, 1)), fr(10 ** rng.randint(2, 5))) for n in names}
-    dcomp = {n: rng.random() < 0.3 for n in MODEL_D + OBS_D}
-    # one parameter may hold a negative value (an offset, say): it stays in linear mode with linear priors, since a
-    # log-space view of a negative value has no meaning
-    negp = rng.choice(names) if rng.random() < 0.3 else None
-    if negp:
-        vals[negp] = -vals[negp]
-        modes[negp] = 'linear'
+def gen_history(rng, N=STUB, init=None):
+    names = N.params
+    if init is not None:
+        vals, modes, fits, bounds, dcomp = init
+        negp = None
+        nonpos = [n for n in names if vals[n] <= 0]          # no log-space view of a non-positive value
+    else:
+        vals = {n: fr(rng.choice([0.5, 2, 10, 150, 1500]) * rng.choice([1, 1, 3])) for n in names}
+        modes = {n: rng.choice(['linear', 'log']) for n in names}
+        fits = {n: rng.random() < 0.3 for n in names}
+        bounds = {n: (fr(10 ** rng.randint(-3, 1)), fr(10 ** rng.randint(2, 5))) for n in names}
+        dcomp = {n: rng.random() < 0.3 for n in N.derived}
+        # one parameter may hold a negative value (an offset, say): it stays in linear mode with linear priors, since a
+        # log-space view of a negative value has no meaning
+        negp = rng.choice(names) if rng.random() < 0.3 else None
+        if negp:
+            vals[negp] = -vals[negp]
+            modes[negp] = 'linear'
+        nonpos = [negp] if negp else []
     ops = []
     nfit_guess = 3
     for _ in range(rng.randint(0, 40)):
@@ -110,7 +183,7 @@ def gen_history(rng):
         if k in ('enable_fit', 'disable_fit'):
             ops.append((k, n))
         elif k == 'set_mode':
-            ops.append((k, n, 'linear' if n == negp else rng.choice(['linear', 'log'])))
+            ops.append((k, n, 'linear' if n in nonpos else rng.choice(['linear', 'log'])))
         elif k == 'set_boundary':
             lo, hi = fr(10 ** rng.randint(-4, 1)), fr(10 ** rng.randint(2, 6))
             ops.append((k, n, lo, hi))
@@ -118,9 +191,9 @@ def gen_history(rng):
             ops.append((k, n, fr(rng.choice([0.1, 0.5, 0.9])), fr(rng.choice([1.1, 2, 10]))))
         elif k == 'set_prior':
             lo, hi = fr(rng.randint(-3, 1)), fr(rng.randint(2, 6))
-            ops.append((k, n, (rng.random() < 0.5) and n != negp, lo, hi))
+            ops.append((k, n, (rng.random() < 0.5) and n not in nonpos, lo, hi))
         elif k in ('enable_derived', 'disable_derived'):
-            dn = rng.choice(MODEL_D + OBS_D) if rng.random() > 0.06 else 'zz'
+            dn = rng.choice(N.derived) if (rng.random() > 0.06 and N.derived) else 'zz'
             ops.append((k, dn))
         elif k == 'compile':
             ops.append((k,))
@@ -136,10 +209,11 @@ def vv_float(tag, f):
     return x if tag == 0 else (10 ** x if tag == 1 else math.log10(x))
 
 
-def run_impl(world, ops):
+def run_impl(world, ops, N=STUB):
     """apply ops to the real optimizer; returns per op (rc, snapshot dict) and the Coq op literals"""
     from taurex.core.priors import Uniform, LogUniform, PriorMode
     m, o, opt = world
+    IDS = N.ids
     prior_objs = {}
     records, lits = [], []
     ncomp = 0
@@ -183,7 +257,7 @@ def run_impl(world, ops):
             rc = 1
         except ValueError:
             rc = 2
-        snap = dict(rc=rc, vals=[m.v[n] for n in MODEL_P] + [o.v[n] for n in OBS_P])
+        snap = dict(rc=rc, vals=current(world, N))
         if k == 'compile' and rc == 0:
             pri = []
             for p in opt.fitting_priors:
@@ -202,7 +276,8 @@ def lit_for_failed(op):
     return None
 
 
-def compare(op, snap, row):
+def compare(op, snap, row, N=STUB):
+    IDS = N.ids
     rc = row[0][0]
     if rc != snap['rc']:
         return 'result kind: impl %d model %d' % (snap['rc'], rc)
@@ -248,11 +323,12 @@ def compare(op, snap, row):
     return None
 
 
-def state_lit(vals, modes, fits, bounds, dcomp):
-    ps = ['mkp %d %s %s %s %s %s %s' % (IDS[n], C.boollit(n in OBS_P), C.boollit(modes[n] == 'log'),
+def state_lit(vals, modes, fits, bounds, dcomp, N=STUB):
+    IDS = N.ids
+    ps = ['mkp %d %s %s %s %s %s %s' % (IDS[n], C.boollit(n in N.obs_p), C.boollit(modes[n] == 'log'),
                                        C.boollit(fits[n]), qlit(bounds[n][0]), qlit(bounds[n][1]), qlit(vals[n]))
-          for n in MODEL_P + OBS_P]
-    ds = ['mkd %d %s %s' % (IDS[n], C.boollit(n in OBS_D), C.boollit(dcomp[n])) for n in MODEL_D + OBS_D]
+          for n in N.params]
+    ds = ['mkd %d %s %s' % (IDS[n], C.boollit(n in N.obs_d), C.boollit(dcomp[n])) for n in N.derived]
     return '(mkstate %s %s)' % (C.clist(['(%s)' % p for p in ps]), C.clist(['(%s)' % d for d in ds]))
 
 
@@ -311,14 +387,49 @@ def run(ctx):
         ctx.count('len:%d' % (len(ops) // 10 * 10))
         for op in ops:
             ctx.count('op:' + op[0])
+    # ---- the same histories on a real forward model: its parameters are collected from every component
+    for i in range(ctx.n(60, 500)):
+        try:
+            world, N, init, spec = make_real_world(rng)
+        except Exception as e:
+            import traceback
+            ctx.violation('real-world-raises', 'building a forward model and its optimizer raised %r\n%s'
+                          % (e, traceback.format_exc()[-500:]), replay=dict(real_model=True))
+            continue
+        vals, modes, fits, bounds, dcomp, ops = gen_history(rng, N, init)
+        rp = dict(real_model=True, spec=spec, parameters=N.params, derived=N.derived, ops=ops)
+        try:
+            records, lits, ncomp = run_impl(world, ops, N)
+        except Exception as e:
+            import traceback
+            ctx.violation('impl-raises:real:' + type(e).__name__, 'optimizer on a real model raised %r\n%s'
+                          % (e, traceback.format_exc()[-600:]), replay=rp)
+            continue
+        opt = world[2]
+        try:
+            opt.compile_params()
+            before = current(world, N)
+            opt.update_model(opt.fit_values)
+            after = current(world, N)
+            if not np.allclose(before, after, rtol=1e-12):
+                ctx.violation('write-back', 'real model: writing the reported fit_values back changed the parameters: '
+                              '%r -> %r' % (dict(zip(N.params, before)), dict(zip(N.params, after))), replay=rp)
+        except Exception as e:
+            ctx.violation('oracle-raises:real:' + type(e).__name__, 'compile/update on the final state raised %r' % (e,),
+                          replay=rp)
+        exprs.append('run_history %s %s' % (state_lit(vals, modes, fits, bounds, dcomp, N),
+                                            C.clist(['(%s)' % l for l in lits])))
+        nupd = sum(1 for op in ops if op[0] == 'update')
+        metas.append(dict(records=records, ops=ops, rp=rp, nontriv=(ncomp >= 2 and nupd >= 1), N=N))
+        ctx.count('real-model histories')
     for mt, r in zip(metas, C.run_cases('C07', HEADER, exprs, shard=50)):
         bad = None
         for j, (op, snap, row) in enumerate(zip(mt['ops'], mt['records'], r)):
-            b = compare(op, snap, row)
+            b = compare(op, snap, row, mt.get('N', STUB))
             if b:
                 bad = 'op %d %r: %s' % (j, op[:2], b)
                 break
-        ctx.case(repr(mt['ops'])[:400], nontrivial=mt['nontriv'],
+        ctx.case(('real' if 'N' in mt else '') + repr(mt['ops'])[:400], nontrivial=mt['nontriv'],
                  sample=[list(map(str, op))[:4] for op in mt['ops'][:6]])
         if bad:
             ctx.violation('correspondence:optimizer', 'state machine model/implementation disagree: ' + bad,
